@@ -94,6 +94,8 @@ type Exec struct {
 	freshBytes     map[string]bool
 	detExt         map[string]bool
 	preludeText    string
+	callSeen       map[string]int  // (initialisation marker for callSites)
+	callSites      map[string][]token.Pos // call sites per callee key, in source order
 	absMaps        map[string]bool // map types (by their dom heap key) whose contents this function does not model
 	entryAsserts   int     // number of background assertions that describe the entry state only (axioms, parameter facts, requires)
 	replayFacts    []*Term // facts about values synthesised for a replay
